@@ -26,6 +26,7 @@ RULE = ("lock-step differential against itertools.groupby: the same operation se
 RULE += (' Also: group handles closed (the twin stops using the group); random histories in which the key function fails once '
          'and the consumer carries on.')
 RULE += (' Also: reflexive keys with one-sided equality (WideKey / NarrowKey) and an unrelated __ne__.')
+RULE += (' Also: items that are None (grouped by equality or an is-None key).')
 ASSUMPTIONS = ["itertools.groupby of the running interpreter is the reference", "keys with reflexive equality only"]
 EXHAUSTIVE_SUBSPACES = "all operation sequences starting with 'adv' of length <= 5 (thorough: 6) over {adv, g-1, g-2, g0} on 12 fixed inputs"
 EXHAUSTIVE = {"quick": False, "thorough": False}
